@@ -194,6 +194,14 @@ def _walk(ctx, fn, cfg, path, env0=None):
                 d = dotted(st.target) if isinstance(st.target, (ast.Name, ast.Attribute)) else None
                 if d:
                     env[d] = ev.ev(ast.BinOp(left=st.target, op=st.op, right=st.value))
+            elif isinstance(st, ast.Expr) and isinstance(st.value, ast.Call) and isinstance(st.value.func, ast.Attribute) and st.value.func.attr == "append" \
+                    and isinstance(st.value.func.value, ast.Name) and len(st.value.args) == 1 and st.value.func.value.id in env:
+                # a local list whose elements are known so far keeps being known after append
+                cur = env[st.value.func.value.id]
+                ck = cur.key() if hasattr(cur, "key") else ""
+                if ck.startswith("[") and ck.endswith("]") and len(cur.p) == 1:
+                    inner = ck[1:-1]
+                    env[st.value.func.value.id] = Term.atom("[" + (inner + "," if inner else "") + ev.ev(st.value.args[0]).key() + "]")
         pr.steps.append(Step(node.kind, st, lab, snap))
         if node.kind == "test" and lab in ("true", "false") and st is not None:
             pr.conds.append((Evaluator(env=snap, const_of=const_of).cond(st.test), lab == "true", st))
